@@ -306,3 +306,92 @@ def all_inputs(alphabet, max_len, bm=False):
             s = ''.join(t)
             out.append(s.encode('latin-1') if bm else s)
     return out
+
+
+# ---------------------------------------------------------------------------------------------
+# alternative spellings and layouts (C19)
+
+def render_alt(e, rng, bm=False, choice_ctor_ok=True):
+    """the same expression in a random mix of the documented alternative spellings"""
+    k = e[0]
+    r = lambda x: render_alt(x, rng, bm, choice_ctor_ok)
+    kids = children(e)
+    has_py_child = any(c[0] == 'py' for c in kids)
+    ctor = rng.random() < 0.5 and not has_py_child
+    nl = (lambda: rng.choice(['', '', '\n    ']))
+    def paren(s):
+        return f'({s})' if rng.random() < 0.2 else s
+    if k in ('str', 'ci', 'rx', 'byte', 'ref', 'bt', 'fail', 'py', 'exp', 'not', 'skip', 'long'):
+        if k in ('exp', 'not', 'skip', 'long'):
+            name = {'exp': 'Expect', 'not': 'ExpectNot', 'skip': 'Skip', 'long': 'Longest'}[k]
+            return paren(f'{name}(' + ', '.join(r(x) for x in kids) + ')')
+        return paren(render(e, bm))
+    if k == 'seq':
+        if ctor and e[1]:
+            return paren('Seq(' + ', '.join(r(x) for x in e[1]) + ')')
+        return paren('[' + (',' + nl() + ' ').join(r(x) for x in e[1]) + ']')
+    if k == 'dis':
+        if ctor:
+            return paren(f'{"Right" if e[1] else "Left"}({r(e[2])}, {r(e[3])})')
+        return f'({r(e[2])}{nl()} {">>" if e[1] else "<<"}{nl()} {r(e[3])})'
+    if k == 'alt':
+        nested = any(c[0] == 'alt' for c in e[1])
+        if ctor and choice_ctor_ok and not nested:
+            return paren('Choice(' + ', '.join(r(x) for x in e[1]) + ')')
+        return '(' + (nl() + ' |' + nl() + ' ').join(r(x) for x in e[1]) + ')'
+    if k == 'opt':
+        return paren(f'Opt({r(e[1])})') if ctor else f'({r(e[1])})?'
+    if k == 'rep':
+        mn, mx, x = e[1], e[2], e[3]
+        if ctor:
+            if mx is None and mn == 0:
+                return paren(f'List({r(x)})')
+            if mx is None and mn == 1:
+                return paren(rng.choice([f'Some({r(x)})', f'List({r(x)}, min_len=1)']))
+            kws = [f'min_len={mn}'] + ([f'max_len={mx}'] if mx is not None else [])
+            return paren(f'List({r(x)}, {", ".join(kws)})')
+        return render(('rep', mn, mx, ('rx', 'HOLE')), bm).replace(('b' if bm else '') + '/HOLE/', r(x))
+    if k == 'sep':
+        d, t, em, rq = e[1]
+        if d and em and not rq and not ctor:
+            return f'({r(e[2])}{nl()} {"/?" if t else "//"}{nl()} {r(e[3])})'
+        kw = []
+        if not d:
+            kw.append('discard_separators=False')
+        if t or rng.random() < 0.3:
+            kw.append(f'allow_trailer={t}')
+        if not em:
+            kw.append('allow_empty=False')
+        if rq:
+            kw.append('require_separator=True')
+        rng.shuffle(kw)
+        return paren(f'Sep({r(e[2])}, {r(e[3])}' + ''.join(', ' + x for x in kw) + ')')
+    raise ValueError(k)
+
+
+def grammar_text_alt(start, rng, rules, bm=False, ignores=(), choice_ctor_ok=True):
+    """statement-level layout variants: `=`/`:`/`=>`, newline vs `;`, comments, blank lines"""
+    stmts = []
+    defs = [('start', start)] + list(rules.items())
+    # (a description that consists of inline Python only is a Python section, not an expression)
+    bare = not rules and not ignores and rng.random() < 0.3 and start[0] != 'py'
+    for name, body in defs:
+        text = render_alt(body, rng, bm, choice_ctor_ok)
+        if bare and name == 'start':
+            stmts.append(text)
+        else:
+            tok = rng.choice(['=', ':', '=>'])
+            sp = rng.choice([' ', '  ', ''])
+            stmts.append(f'{name}{sp}{tok}{sp}{text}')
+    for ig in ignores:
+        stmts.append(ig.replace('ignore ', rng.choice(['ignore ', 'ignored ']), 1))
+    out = []
+    if rng.random() < 0.3:
+        out.append('# leading comment\n\n')
+    for i, s in enumerate(stmts):
+        out.append(s)
+        if i + 1 < len(stmts):
+            sep = rng.choice(['\n', '\n', ';', ' ; ', '\n\n', ' # trailing comment\n', '\n# own line\n', ';\n'])
+            out.append(sep)
+    out.append(rng.choice(['\n', '', '\n\n', ' # end\n', ';\n']) if not bare else rng.choice(['', '\n']))
+    return ''.join(out)
